@@ -625,7 +625,7 @@ def oracle(c):
         if d.get('bad'):
             try:
                 linalg.point_distance(qs(p1), qs(p2 + [F(1)]))
-            except ValueError:
+            except Exception:
                 return None
             return "point_distance accepts points of different dimension"
         got = F(fr(linalg.point_distance(qs(p1), qs(p2))))
